@@ -14,8 +14,10 @@ package vsched
 
 import (
 	"fmt"
+	"reflect"
 	"runtime/debug"
 	"sort"
+	"strings"
 	"sync"
 	"sync/atomic"
 	"time"
@@ -59,6 +61,7 @@ type Sched struct {
 	timers   []*vtimer
 	timerSeq int
 	chans    map[uintptr]*chanState
+	touch    map[uintptr][]touchEntry
 
 	finish  chan struct{}
 	ended   bool
@@ -286,6 +289,90 @@ func Y(file string, line int) {
 	s.checkAbort()
 	s.cur.site = file + ":" + itoa(line)
 	s.point(s.cur.site)
+}
+
+// Acc announces one access of the statement that follows to an object that is not safe for
+// concurrent use (a map, a *rand.Rand, a buffer ...). Obj is evaluated under recover.
+type Acc struct {
+	Obj   func() interface{}
+	Write bool
+	What  string
+}
+
+type touchEntry struct {
+	thread int
+	write  bool
+	what   string
+	site   string
+}
+
+// TouchY is Y plus exclusive-use tracking: the announced accesses are registered while the thread
+// waits at the scheduling point in front of its statement. If another thread announces a
+// conflicting access (write/write or read/write of the same object) during that time, the two
+// statements can run at the same moment in this schedule - nothing orders them - and the execution
+// ends with a panic "vsched: unsynchronised ...". Accesses made under a common lock never meet
+// here: the second thread blocks on the lock before it reaches its statement.
+func TouchY(file string, line int, accs ...Acc) {
+	s := cur()
+	if s == nil {
+		return
+	}
+	site := file + ":" + itoa(line)
+	var keys []uintptr
+	me := s.cur.id
+	for _, a := range accs {
+		k := touchKey(a.Obj)
+		if k == 0 {
+			continue
+		}
+		for _, e := range s.touch[k] {
+			if e.thread != me && (e.write || a.Write) {
+				panic(fmt.Sprintf("vsched: unsynchronised %s at %s (thread %s) while thread %s is at %s: %s - no lock or channel orders the two", a.What, site, s.cur.name, s.threads[e.thread].name, e.site, e.what))
+			}
+		}
+		if s.touch == nil {
+			s.touch = map[uintptr][]touchEntry{}
+		}
+		s.touch[k] = append(s.touch[k], touchEntry{me, a.Write, a.What, site})
+		keys = append(keys, k)
+	}
+	defer func() {
+		for _, k := range keys {
+			l := s.touch[k]
+			for i := len(l) - 1; i >= 0; i-- {
+				if l[i].thread == me {
+					l = append(l[:i], l[i+1:]...)
+					break
+				}
+			}
+			if len(l) == 0 {
+				delete(s.touch, k)
+			} else {
+				s.touch[k] = l
+			}
+		}
+	}()
+	if strings.HasPrefix(file, "touch:") {
+		if len(keys) > 0 {
+			Yield(site)
+		}
+		return
+	}
+	Y(file, line)
+}
+
+func touchKey(f func() interface{}) (k uintptr) {
+	defer func() {
+		if recover() != nil {
+			k = 0
+		}
+	}()
+	v := reflect.ValueOf(f())
+	switch v.Kind() {
+	case reflect.Ptr, reflect.Map, reflect.Chan, reflect.UnsafePointer:
+		return v.Pointer()
+	}
+	return 0
 }
 
 // Yield is an explicit scheduling point for harness code.
